@@ -13,12 +13,11 @@ policy), the metadata store refreshed in between (observe_life); most cases are 
 object.  Coq checks every call of a life (Corr.agrees / holds = forallb over the calls; Model.run_life,
 Spec.spec_life, theorems c10_life_*).
 
-Finding C10-F5 is OPEN (Corr.cls = 3): Policy.get_entity_categories trusts the FriendlyName of a required
-RequestedAttribute before its Name + NameFormat; with an ONLY_REQUIRED category the attribute the label names is released.
-
-Findings C10-F1 (best_effort hard-coded, MissingValue => unfiltered identity) and C10-F2 (entity
-categories skipped without a metadata store) are FIXED in /repo (a4e3dbdd, 47cc754e): Corr.cls still
-names the two input classes, and since findings/C10.json marks them fixed a case of either class whose
+Findings C10-F1 (best_effort hard-coded, MissingValue => unfiltered identity), C10-F2 (entity
+categories skipped without a metadata store) and C10-F5 (Policy.get_entity_categories trusted the FriendlyName of a
+required RequestedAttribute before its Name + NameFormat: with an ONLY_REQUIRED category the attribute the label
+names was released) are FIXED in /repo (a4e3dbdd, 47cc754e, 4be62a1c): Corr.cls still
+names the three input classes, and since findings/C10.json marks them fixed a case of either class whose
 outcome breaks the property is a VIOLATION again.
 """
 import copy
